@@ -1,61 +1,64 @@
 /- REGENERATED from /repo on every run by /verif/harness/cmd/extract — do not edit. -/
 namespace Ibx.Gen.Ends
 
-/-- the condition of the command loop: field names, operators, constants -/
-def smtpLoopCond : List String := ["state", "!=", "QUIT", "&&", "sendError", "==", "nil"]
+/-- the condition of the command loop: roles ($state, $sendError), operators, constants -/
+def smtpLoopCond : List String := ["$state", "!=", "QUIT", "&&", "$sendError", "==", "nil"]
 
-/-- sends of the loop's read-error branch after the io.EOF test: (guard, literal) -/
+/-- what the paths of the command loop on which reading the line failed with something other than io.EOF reply: the distinct (class of the path, literal); timeout first -/
 def smtpReadErrSends : List (String × List Nat) := [("timeout", [50, 50, 49, 32, 73, 100, 108, 101, 32, 116, 105, 109, 101, 111, 117, 116, 44, 32, 98, 121, 101, 32, 98, 121, 101]), ("other", [50, 50, 49, 32, 67, 111, 110, 110, 101, 99, 116, 105, 111, 110, 32, 101, 114, 114, 111, 114, 44, 32, 115, 111, 114, 114, 121])]
 
-/-- sends inside the `== io.EOF` block -/
+/-- replies on the paths where it failed with io.EOF -/
 def smtpEofSends : List String := []
 
-/-- break statements leaving the loop from the read-error branch -/
+/-- number of classes (eof, timeout, other) of failed-read paths, all of which leave the loop (-1: one does not, or not understood) -/
 def smtpReadErrBreaks : Int := 3
 
-/-- shape of nextDeadline() -/
-def smtpNextDeadline : String := "Now.Add(Timeout)"
+/-- other events on the failed-read paths -/
+def smtpReadErrOther : List String := []
 
-/-- is the deadline armed (Set…Deadline(nextDeadline())) before the first I/O call of the function -/
-def smtpDeadlines : List (String × String) := [("readLine", "armed"), ("readDataBlock", "armed"), ("send", "armed")]
+/-- (I/O call, armed | unarmed) for every function that reads or writes the connection: is a Set{Read,Write}Deadline call made before the I/O call -/
+def smtpDeadlines : List (String × String) := [("PrintfLine", "armed"), ("ReadDotBytes", "armed"), ("ReadLine", "armed")]
 
-/-- sends in dataHandler's read-error block -/
+/-- the distinct deadlines those calls set (helpers looked through) -/
+def smtpNextDeadline : List String := ["time.Now().Add($r.config.Timeout)"]
+
+/-- replies of the DATA handler, after the 354, on the paths without delivery and without reset (the block could not be read): (class of the path, literal) -/
 def smtpDataErrSends : List (String × List Nat) := [("timeout", [50, 50, 49, 32, 73, 100, 108, 101, 32, 116, 105, 109, 101, 111, 117, 116, 44, 32, 98, 121, 101, 32, 98, 121, 101])]
 
-/-- other method calls of that block, then whether it ends with return -/
-def smtpDataErrCalls : List String := ["enterState", "return"]
+/-- what else those paths do and how they end -/
+def smtpDataErrExit : List String := ["state:QUIT; return"]
 
-/-- argument of the enterState call in that block -/
-def smtpDataErrState : String := "QUIT"
+/-- the condition of the command loop: roles ($state, $sendError), operators, constants -/
+def popLoopCond : List String := ["$state", "!=", "QUIT", "&&", "$sendError", "==", "nil"]
 
-/-- the condition of the command loop: field names, operators, constants -/
-def popLoopCond : List String := ["state", "!=", "QUIT", "&&", "sendError", "==", "nil"]
-
-/-- sends of the loop's read-error branch after the io.EOF test: (guard, literal) -/
+/-- what the paths of the command loop on which reading the line failed with something other than io.EOF reply: the distinct (class of the path, literal); timeout first -/
 def popReadErrSends : List (String × List Nat) := [("timeout", [45, 69, 82, 82, 32, 73, 100, 108, 101, 32, 116, 105, 109, 101, 111, 117, 116, 44, 32, 98, 121, 101, 32, 98, 121, 101]), ("other", [45, 69, 82, 82, 32, 67, 111, 110, 110, 101, 99, 116, 105, 111, 110, 32, 101, 114, 114, 111, 114, 44, 32, 115, 111, 114, 114, 121])]
 
-/-- sends inside the `== io.EOF` block -/
+/-- replies on the paths where it failed with io.EOF -/
 def popEofSends : List String := []
 
-/-- break statements leaving the loop from the read-error branch -/
+/-- number of classes (eof, timeout, other) of failed-read paths, all of which leave the loop (-1: one does not, or not understood) -/
 def popReadErrBreaks : Int := 3
 
-/-- shape of nextDeadline() -/
-def popNextDeadline : String := "Now.Add(Timeout)"
+/-- other events on the failed-read paths -/
+def popReadErrOther : List String := []
 
-/-- is the deadline armed before the first I/O call of the function -/
-def popDeadlines : List (String × String) := [("readLine", "armed"), ("send", "armed")]
+/-- (I/O call, armed | unarmed) for every function that reads or writes the connection: is a Set{Read,Write}Deadline call made before the I/O call -/
+def popDeadlines : List (String × String) := [("Fprint", "armed"), ("ReadString", "armed")]
 
-/-- first result of readLine's error return: lit: = the empty string literal, the partial line is dropped -/
+/-- the distinct deadlines those calls set (helpers looked through) -/
+def popNextDeadline : List String := ["time.Now().Add($r.config.Timeout)"]
+
+/-- result 0 of the reading helper on the paths where ReadString failed: lit: = the empty string literal, the partial line is dropped -/
 def popReadLineErr : List String := ["lit:"]
 
-/-- sendMessage: send literals of each top-level `if … return` block, then the final sends -/
+/-- the body function of RETR (the helper of that clause that builds a bufio.Scanner): the replies outside the line loop on each of its exits; sorted, duplicates removed -/
 def popSendMessageExits : List (List String) := [["-ERR Failed to RETR that message, internal error"], [".", "-ERR Failed to RETR that message, internal error"], ["."]]
 
-/-- the same for sendMessageTop -/
+/-- the same for the body function of TOP -/
 def popSendMessageTopExits : List (List String) := [["-ERR Failed to RETR that message, internal error"], [".", "-ERR Failed to RETR that message, internal error"], ["."]]
 
-/-- the last two calls of the RETR and TOP cases: the +OK status line is sent before the body function runs -/
-def popBodyCalls : List (String × String) := [("RETR", "send:+OK %v bytes follows ; sendMessage"), ("TOP", "send:+OK Top of message follows ; sendMessageTop")]
+/-- for the RETR and TOP rows of the TRANSACTION handler: the event immediately before the body function on every path that reaches it: the +OK status line is sent before the body function runs -/
+def popBodyCalls : List (String × String) := [("RETR", "send:+OK %s bytes follows ; body"), ("TOP", "send:+OK Top of message follows ; body")]
 
 end Ibx.Gen.Ends
